@@ -321,6 +321,15 @@ fn enc_event<F: Fam>(out: &mut Out, rng: &mut Rng, p: &F::Packet) {
     let mut ev = json!({"ev": "Enc", "fam": F::NAME, "packet": F::to_json(p), "sync": e});
     if let Some(b) = &bytes {
         // the container returned by the blocking encoder, a second invocation, and a clone of the packet
+        // the container's own content, read by matching on its representation (not through as_ref)
+        if let Ok(Ok(vb)) = guarded(|| F::encode(p)) {
+            let raw: Vec<u8> = match &vb {
+                mqtt_proto::VarBytes::Dynamic(v) => v.clone(),
+                mqtt_proto::VarBytes::Fixed2(a) => a.to_vec(),
+                mqtt_proto::VarBytes::Fixed4(a) => a.to_vec(),
+            };
+            ev["container"] = jbytes(&raw);
+        }
         let again = enc::<F>(p).0;
         let cl = p.clone();
         let cloned = enc::<F>(&cl).0;
